@@ -50,6 +50,8 @@ EXPECT = {
     "seed-C18-p": ["C18", "C19"], "seed-C19-p": ["C19"],
     "seed-C01-q": ["C01"], "seed-C04-q": ["C04", "C05"], "seed-C07-q": ["C07"], "seed-C08-q": ["C08"], "seed-C09-q": ["C09"], "seed-C10-q": ["C07"],
     "seed-C11-q": ["C11"], "seed-C13-q": ["C13"], "seed-C14-q": ["C14"], "seed-C17-q": ["C17"], "seed-C18-q": ["C18"], "seed-C19-q": ["C19"],
+    "seed-C01-r": ["C01"], "seed-C02-r": ["C02"], "seed-C03-r": ["C03"], "seed-C04-r": ["C04"], "seed-C05-r": ["C05"], "seed-C06-r": ["C06"], "seed-C08-r": ["C08"],
+    "seed-C11-r": ["C11", "C06"], "seed-C12-r": ["C12"], "seed-C14-r": ["C14"], "seed-C15-r": ["C15", "C08"], "seed-C16-r": ["C16", "C04"], "seed-C17-r": ["C17"], "seed-C18-r": ["C18"],
     "seed-C07-o": ["C07"], "seed-C08-o": ["C08"], "seed-C10-o": ["C10"], "seed-C11-o": ["C11"], "seed-C13-o": ["C13"], "seed-C16-o": ["C16"], "seed-C19-o": ["C19"],
 }
 
